@@ -63,13 +63,17 @@ def pushdown_predicates(expression: E, dialect: DialectType = None) -> E:
                         if join_index.get(k, -1) > last_full_join
                     }
 
-                # a right join can only push down to itself and not the source FROM table
+                # a right join can only push down to itself and not the source FROM table; with several
+                # right joins only the last one's source is preserved (earlier ones come back NULL-padded)
                 # presto, trino and athena don't support inner joins where the RHS is an UNNEST expression
+                last_right_join = max(
+                    (i for i, join in enumerate(joins) if join.side == "RIGHT"), default=-1
+                )
                 pushdown_allowed = True
                 for k, (node, source) in selected_sources.items():
                     parent = node.find_ancestor(exp.Join, exp.From)
                     if isinstance(parent, exp.Join):
-                        if parent.side == "RIGHT":
+                        if parent.side == "RIGHT" and join_index.get(k, -1) == last_right_join:
                             selected_sources = {k: (node, source)}
                             break
                         if isinstance(node, exp.Unnest) and unnest_requires_cross_join:
